@@ -34,10 +34,10 @@ ASSUMPTIONS = ['Fraction arithmetic, the Sturm implementation in vt/ref/exact.py
 TIERS = {
     'quick': {'shards': 14, 'random': 14000, 'timeout': 600, 'min_cases': 8000,
               'require_branches': ['symbolic:identities-proved', 'roots:close-pair-present', 'roots:complex-near-axis',
-                                   'limit:common-zero', 'roots:internal-caller', 'roots:neighbour-fails-condition']},
+                                   'limit:common-zero', 'roots:internal-caller', 'roots:neighbour-fails-condition', 'roots:far-root', 'limit:micro-scale']},
     'thorough': {'shards': 14, 'random': 600000, 'timeout': 3000, 'min_cases': 200000,
                  'require_branches': ['symbolic:identities-proved', 'roots:close-pair-present',
-                                      'roots:complex-near-axis', 'limit:common-zero', 'roots:internal-caller', 'roots:neighbour-fails-condition']},
+                                      'roots:complex-near-axis', 'limit:common-zero', 'roots:internal-caller', 'roots:neighbour-fails-condition', 'roots:far-root', 'limit:micro-scale']},
 }
 EPS = gen.EPS
 
@@ -498,6 +498,9 @@ def _root_set(rng):
             room -= 1
         elif k < 0.9:
             roots.append(rng.choice([-1, 1]) * rng.uniform(2, 50))
+            if rng.random() < 0.3 and n <= 3:
+                roots[-1] = rng.choice([-1, 1]) * 10.0 ** rng.uniform(3, 12)      # a root very far out of range
+                tags.add('far-root')
         else:
             roots.append(rng.choice([0.0, 1.0, 0.5, 0.25]))
     # numpy returns roots roughly ordered; place the cluster at a random rank by shuffling magnitudes
@@ -557,8 +560,16 @@ def cases(ctx):
                 return float(rng.randint(-8, 8)) if dyadic else rng.uniform(-5, 5)
             h1 = [coef() for _ in range(rng.randint(1, 3))]
             h2 = [coef() for _ in range(rng.randint(1, 3))]
-            yield {'kind': 'limit', 't0': t0, 'order': order, 'h1': h1, 'h2': h2, 'dyadic': dyadic,
-                   'cls': ['limit', 'order%d' % order, 'dyadic' if dyadic else 'generic']}
+            cls = ['limit', 'order%d' % order, 'dyadic' if dyadic else 'generic']
+            if rng.random() < 0.25:
+                # micro-scale coefficients (a drawing in metres, a denominator with a tiny constant term): whether
+                # g(t0) is zero is a question about the polynomial, not about an absolute threshold
+                sc = 2.0 ** (-rng.randint(24, 50))
+                h2 = [c * sc for c in h2]
+                if rng.random() < 0.5:
+                    h1 = [c * sc for c in h1]
+                cls.append('limit:micro-scale')
+            yield {'kind': 'limit', 't0': t0, 'order': order, 'h1': h1, 'h2': h2, 'dyadic': dyadic, 'cls': cls}
         else:
             kinds = rng.choice(['Q', 'C'])
             s = gen.rand_seg_spec(rng, kinds, gen.cpoint(rng, 'rand'), 'rand')
@@ -618,6 +629,8 @@ def run_case(ctx, case):
             ctx.branch('roots:close-pair-present')
         if 'roots:complex-near-axis' in case['cls']:
             ctx.branch('roots:complex-near-axis')
+        if 'roots:far-root' in case['cls']:
+            ctx.branch('roots:far-root')
         coeffs = _poly_from_roots(ctx.rng, roots, case['lead'])
         if case['cond'] == '01':
             T.polyroots01(coeffs)
@@ -627,6 +640,8 @@ def run_case(ctx, case):
             if case['cond'] == 'all':
                 T.polyroots(coeffs)
     elif kind == 'limit':
+        if 'limit:micro-scale' in case['cls']:
+            ctx.branch('limit:micro-scale')
         t0, order = case['t0'], case['order']
         fac = [F(1)]
         for _ in range(order):
